@@ -967,6 +967,18 @@ def rule_options_init(mod, rep):
             for p in init.addr_paths(s):
                 if len(p) == 2 and p[0] == ("A", ko) and p[1][0] == "f" and p[1][1] == "superlumt_options_t":
                     fields.setdefault(p[1][2], set()).add(s.i)
+        # a field whose address is handed to a helper that writes through it (init_int_array(&options->etree, ..)): the call is the store site
+        from .. import effects as _eff
+        E = _eff.get(mod)
+        for c in init.insts():
+            if c.op != "call" or not c.callee or c.callee not in mod.funcs:
+                continue
+            for k, o in enumerate(c.ops):
+                if not init.is_ptr(o):
+                    continue
+                for p in init.paths(o):
+                    if len(p) == 2 and p[0] == ("A", ko) and p[1][0] == "f" and p[1][1] == "superlumt_options_t" and any(len(suf) == 0 for suf in E.writes_via_arg(c.callee, k)):
+                        fields.setdefault(p[1][2], set()).add(c.i)
         must = set()
         for fld, sts in fields.items():
             R = init.reach([init.blocks[0].insts[0]], stop=lambda x, sts=sts: x.i in sts, dead_edges=dead, include_start=True)
